@@ -114,8 +114,8 @@ def gen_type(rng, u, depth, hashable=False, key=False):
     if k == "enum":
         return ("enum", rng.randrange(nen))
     if k == "coll":
-        kind = rng.choice(["list", "list", "set", "frozenset", "vartuple"])
-        elt = gen_type(rng, u, depth - 1, hashable=kind in ("set", "frozenset"))
+        kind = rng.choice(["list", "list", "list", "sequence", "collection", "set", "abstractset", "frozenset", "vartuple"])
+        elt = gen_type(rng, u, depth - 1, hashable=kind in ("set", "frozenset", "abstractset"))
         return ("coll", kind, elt)
     if k == "coll_h":
         kind = rng.choice(["frozenset", "vartuple"])
